@@ -92,6 +92,190 @@ pub fn check_case(ctx: &Ctx, ws: &mut Workers, c: &ProgCase, counting: bool, str
     Ok(())
 }
 
+// ---------------------------------------------------------------------------------------
+// object-graph histories
+
+#[derive(Clone, Debug, serde::Serialize, serde::Deserialize)]
+pub struct GraphCase {
+    /// gc-stress period (0 = only natural and requested collections)
+    pub period: u64,
+    pub script: svmodel::graph::Script,
+}
+
+pub fn graph_case(data: &[u16], period: u64, max_ops: usize) -> GraphCase {
+    GraphCase { period, script: svmodel::graph::generate(data, period != 0, period == 0, if period != 0 && period < 7 { max_ops.min(14) } else { max_ops }) }
+}
+
+fn graph_text(c: &GraphCase, upto: usize) -> String {
+    let mut s = format!(";; gc-stress period {}\n", c.period);
+    for (i, p) in c.script.pieces.iter().enumerate().skip(1) {
+        if i > upto {
+            break;
+        }
+        s.push_str(&format!(";; piece {}\n{}\n", i, p.src));
+    }
+    s
+}
+
+pub fn check_graph(ctx: &Ctx, ws: &mut Workers, c: &GraphCase, counting: bool, tag: &str) -> PropResult {
+    let mut off_ok = false;
+    let mut collections = 0i64;
+    for cfg in [Config::jit_off(), Config::default_cfg()] {
+        let jit_on = cfg.0.is_empty();
+        // the stress hook is switched on after the prelude (piece 0)
+        let mut steps = vec![];
+        let mut index = vec![];
+        for (i, p) in c.script.pieces.iter().enumerate() {
+            index.push(steps.len());
+            steps.push(Step::Eval { src: p.src.clone() });
+            if i == 0 && c.period > 0 {
+                steps.push(Step::GcStress { n: c.period });
+            }
+        }
+        let mut case = Case::new(steps);
+        case.timeout_ms = 30_000;
+        let r = ws.run(&cfg, &case);
+        ctx.stats.engine_runs.fetch_add(1, std::sync::atomic::Ordering::Relaxed);
+        let fail = |kind: &str, upto: usize, msg: String| -> PropResult {
+            let kind = if jit_on && off_ok { format!("jitdiv:{}", kind) } else { kind.to_string() };
+            Err(Failure::new(format!("{}:graph:{}", tag, kind), format!("config: {}\n{}\n{}", cfg.label(), msg, graph_text(c, upto))))
+        };
+        match r.end {
+            End::Done => {}
+            End::Watchdog | End::Oom => {
+                if counting {
+                    ctx.stats.inconclusive.fetch_add(1, std::sync::atomic::Ordering::Relaxed);
+                }
+                // without a verdict for the interpreter a JIT failure could not be classified
+                return Ok(());
+            }
+            End::Signal(s) => return fail("signal", usize::MAX, format!("engine process died with signal {}\nstderr: {}", s, r.stderr_tail)),
+            End::Exit(x) => return fail("exit", usize::MAX, format!("engine process exited with status {}", x)),
+        }
+        for (i, p) in c.script.pieces.iter().enumerate() {
+            let Some(st) = r.steps.get(index[i]) else {
+                return fail("missing-step", i, format!("piece {} was not executed", i));
+            };
+            match st.outcome {
+                Outcome::Ok => {}
+                Outcome::Err => return fail("unexpected-error", i, format!("piece {} raised {}: {}", i, st.err_kind, st.err_msg)),
+                Outcome::Panic => return fail("panic", i, format!("piece {} panicked: {}", i, st.err_msg)),
+            }
+            if let Some(exp) = &p.expect {
+                let got = st.values.iter().rev().find(|v| *v != "#void").cloned().unwrap_or_default();
+                if got != *exp {
+                    return fail("wrong-contents", i, format!("piece {} (dump of the roots)\nexpected: {}\nactual:   {}", i, exp, got));
+                }
+            }
+        }
+        if let Some(st) = r.steps.last() {
+            let stale = st.hooks.get("stale_accesses").copied().unwrap_or(0);
+            let acct = st.hooks.get("accounting_errors").copied().unwrap_or(0);
+            collections = collections.max(st.hooks.get("full_collections").copied().unwrap_or(0));
+            if stale != 0 {
+                return fail("stale-handle", usize::MAX, format!("accesses through a handle whose slot is free: {}", stale));
+            }
+            if acct != 0 {
+                return fail("heap-accounting", usize::MAX, format!("free-list accounting errors after a full collection: {}", acct));
+            }
+        }
+        if !jit_on {
+            off_ok = true;
+        }
+    }
+    if counting {
+        let s = &c.script.stats;
+        ctx.stats.eval();
+        ctx.stats.class(&format!("graph:stress-period-{}", c.period));
+        ctx.stats.class_n("graph:full-collections-observed", collections as u64);
+        ctx.stats.class_n("graph:mutations", s.mutations as u64);
+        ctx.stats.class_n("graph:mutations-after-a-collection", s.mutation_after_collection as u64);
+        ctx.stats.class_n("graph:shared-inserts", s.shared_inserts as u64);
+        ctx.stats.class_n("graph:root-drops", s.drops as u64);
+        ctx.stats.class_n("graph:root-aliases", s.aliases as u64);
+        ctx.stats.class_n("graph:held-by-local-or-operand-only", s.local_holds as u64);
+        ctx.stats.class_n("graph:held-by-continuation-only", s.cont_holds as u64);
+        ctx.stats.class_n("graph:checks", s.checks as u64);
+        for e in &s.edges {
+            ctx.stats.class(&format!("graph:edge:{}", e));
+        }
+        if collections >= 1 && s.mutations + s.local_holds + s.cont_holds >= 1 && s.checks >= 1 {
+            ctx.stats.nontrivial(&graph_text(c, usize::MAX));
+        }
+        if ctx.stats.want_sample() && c.script.pieces.len() > 6 {
+            ctx.stats.sample(serde_json::json!({"graph_script": graph_text(c, usize::MAX), "full_collections": collections}));
+        }
+    }
+    Ok(())
+}
+
+/// drop churn / collection pieces (model neutral) while the failure persists
+fn reduce_graph(ctx: &Ctx, ws: &mut Workers, c: &GraphCase, f: &Failure, tag: &str) -> (GraphCase, Failure) {
+    let mut cur = c.clone();
+    let mut last = f.clone();
+    let mut i = 1;
+    let mut budget = 80;
+    while i < cur.script.pieces.len() && budget > 0 {
+        let src = &cur.script.pieces[i].src;
+        if src.starts_with("(churn-") || src.starts_with("(#%gc-collect)") {
+            let mut cand = cur.clone();
+            cand.script.pieces.remove(i);
+            budget -= 1;
+            match check_graph(ctx, ws, &cand, false, tag) {
+                Err(g) if g.sig == f.sig => {
+                    cur = cand;
+                    last = g;
+                    continue;
+                }
+                _ => {}
+            }
+        }
+        i += 1;
+    }
+    (cur, last)
+}
+
+fn periods() -> Vec<u64> {
+    // development aid: VERIF_PERIOD=n pins the gc-stress period
+    match std::env::var("VERIF_PERIOD").ok().and_then(|v| v.parse::<u64>().ok()) {
+        Some(p) => vec![p],
+        None => vec![0u64, 0, 0, 0, 1, 2, 3, 7, 7, 31, 31],
+    }
+}
+
+pub fn run_graph(ctx: &Ctx, tag: &str, total: u64) {
+    {
+        let mut ws = Workers::new();
+        replay_tier::<GraphCase>(ctx, "graph", &mut |c| check_graph(ctx, &mut ws, c, false, tag));
+    }
+    let max_ops = if ctx.quick() { 30 } else { 80 };
+    let fails = run_prop(
+        ctx,
+        "graph",
+        || (prop::collection::vec(any::<u16>(), 0..900), prop::sample::select(periods())).prop_map(move |(d, period)| graph_case(&d, period, max_ops)),
+        total,
+        |ws, c, counting| match check_graph(ctx, ws, c, counting, tag) {
+            Err(f) => {
+                if let Some(k) = ctx.match_known(&f) {
+                    if counting {
+                        ctx.note_known_hit(&k.id);
+                        ctx.dump_known_case(k, "graph", c, &f);
+                    }
+                    Ok(())
+                } else if ctx.survey_case("graph", c, &f) {
+                    Ok(())
+                } else {
+                    Err(f)
+                }
+            }
+            ok => ok,
+        },
+    );
+    let mut ws = Workers::new();
+    let fails: Vec<(GraphCase, Failure)> = fails.into_iter().map(|(c, f)| reduce_graph(ctx, &mut ws, &c, &f, tag)).collect();
+    report_failures(ctx, "graph", fails);
+}
+
 pub fn run(ctx: &Ctx, replay: Option<&str>) -> i32 {
     ctx.set_rule(
         "the C01 program generator biased to boxes, mutable vectors, assigned captured variables, counters, call/cc and handlers, \
@@ -103,6 +287,24 @@ pub fn run(ctx: &Ctx, replay: Option<&str>) -> i32 {
     );
     ctx.assume("hooks: gc-stress forces collections that are legal at any allocation; stale-handle detection is only evaluated outside collections");
     if let Some(path) = replay {
+        if std::path::Path::new(path).file_name().map(|n| n.to_string_lossy().starts_with("graph")).unwrap_or(false) {
+            let Some(rf) = load_replay::<GraphCase>(std::path::Path::new(path)) else {
+                eprintln!("cannot read replay file {}", path);
+                return 2;
+            };
+            let mut ws = Workers::new();
+            return match check_graph(ctx, &mut ws, &rf.case, false, "c04") {
+                Ok(()) => {
+                    println!("replay {}: property holds", path);
+                    0
+                }
+                Err(f) => {
+                    println!("VIOLATION property={} replay={}", ctx.prop, path);
+                    println!("  sig: {}\n{}", f.sig, f.detail);
+                    1
+                }
+            };
+        }
         let Some(rf) = load_replay::<ProgCase>(std::path::Path::new(path)) else {
             eprintln!("cannot read replay file {}", path);
             return 2;
@@ -130,7 +332,9 @@ pub fn run(ctx: &Ctx, replay: Option<&str>) -> i32 {
             check_case(ctx, &mut ws, &c, false, true)
         });
     }
-    let total = ctx.n(3000, 100_000);
+    // development aid: VERIF_SUB=graph runs the object-graph part only
+    let only_graph = std::env::var("VERIF_SUB").map(|v| v == "graph").unwrap_or(false);
+    let total = if only_graph { 0 } else { ctx.n(3000, 100_000) };
     let avoid = c01::avoid_list(ctx);
     let fails = run_prop(
         ctx,
@@ -184,5 +388,6 @@ pub fn run(ctx: &Ctx, replay: Option<&str>) -> i32 {
         })
         .collect();
     report_failures(ctx, "prog", fails);
+    run_graph(ctx, "c04", ctx.n(1500, 60_000));
     ctx.finish()
 }
